@@ -6337,6 +6337,13 @@ mz_bool mz_zip_writer_add_mem_ex_v2(mz_zip_archive * pZip, const char * pArchive
 
 	MZ_CLEAR_OBJ(local_dir_header);
 
+	if (!(level_and_flags & MZ_ZIP_FLAG_COMPRESSED_DATA) && (buf_size <= 3)) {
+		// Tiny buffers are stored, not deflated -- decide this before the
+		// method is written into the local header
+		level = 0;
+		store_data_uncompressed = MZ_TRUE;
+	}
+
 	if (!store_data_uncompressed || (level_and_flags & MZ_ZIP_FLAG_COMPRESSED_DATA)) {
 		method = MZ_DEFLATED;
 	}
